@@ -37,7 +37,10 @@ def peer_strategy(dll=None, roles=("orig", "resp"), modes=("rts", "rts", "bam"),
                      "P": draw(st.lists(st.sampled_from(simbus.LATENCY_GRID), min_size=1, max_size=3))},
              "eps": draw(st.lists(st.sampled_from(EPS_GRID[:4]), min_size=1, max_size=2)),
              "disp": draw(st.lists(st.sampled_from(EPS_GRID[:4]), min_size=1, max_size=2)),
-             "bam_dt": None, "rts_dt": None}
+             "bam_dt": None, "rts_dt": None,
+             "sas": draw(st.sampled_from([[0x30, 0x90], [0x30, 0x90], [0x00, 0x90], [0x30, 0x00], [0x01, 0xFD], [0xFD, 0x80],
+                                          [0x7F, 0xF7], [0xF8, 0x7F]])),
+             "tx_time": draw(st.sampled_from([0.0, 0.0, 0.0, 0.0001, 0.0005]))}
         if mode == "bam":
             kind = draw(st.sampled_from(["pdu2", "pdu1"]))
             if kind == "pdu2":
@@ -95,10 +98,12 @@ def run(p):
     """Returns observations dict; the world is closed on return."""
     fd = p["dll"] == "j1939-22"
     peer_cfg = p["peer"]
+    SA_S, SA_P = p.get("sas", [0x30, 0x90])
     w = W.World(latency=p["lat"], wake_eps=p["eps"], dispatch=p["disp"])
     obs = {}
     try:
-        s = w.stack("S", dll=p["dll"], max_cmdt=p["max_cmdt"], bam_dt=p["bam_dt"], rts_cts_dt=p["rts_dt"])
+        s = w.stack("S", dll=p["dll"], max_cmdt=p["max_cmdt"], bam_dt=p["bam_dt"], rts_cts_dt=p["rts_dt"],
+                    tx_time=p.get("tx_time", 0.0))
         s.add_ca("s", 0x100, SA_S)
         s.listen_ca("s")
         if p["role"] == "s2s":
@@ -125,7 +130,7 @@ def run(p):
                     res["r"] = "EXC:%s:%s" % (type(e).__name__, str(e)[:100])
             w.at(0.05, submit)
             if p["mode"] == "rts":
-                per = max(peer_cfg["reply_lat"]) + 2 * maxlat + (p["rts_dt"] or 0) + 0.003
+                per = max(peer_cfg["reply_lat"]) + 2 * maxlat + (p["rts_dt"] or 0) + 0.003 + 2 * p.get("tx_time", 0.0)
                 holds = max(peer_cfg["holds"]) * peer_cfg["hold_gap"]
                 windows = n   # worst case window 1
                 horizon = 0.05 + windows * (per + holds) + 2.0
@@ -133,7 +138,7 @@ def run(p):
                     horizon = min(horizon, 0.05 + n * per + min(n, 200) * holds + 2.0)
             else:
                 interval = p["bam_dt"] if p["bam_dt"] is not None else (0.01 if fd else 0.05)
-                horizon = 0.05 + (n + 2) * (interval + 0.003) + 1.0
+                horizon = 0.05 + (n + 2) * (interval + 0.003 + p.get("tx_time", 0.0)) + 1.0
         else:
             if p["mode"] == "rts":
                 w.at(0.05, lambda: peer.originate_rts(SA_S, pgn, data, limit=peer_cfg["limit"], dt_gap=peer_cfg["dt_gap"],
@@ -161,6 +166,7 @@ def run(p):
 
 # ------------------------------------------------------------------ C03 judge
 def judge_wire(p, obs, V):
+    SA_S, SA_P = p.get("sas", [0x30, 0x90])
     fd = p["dll"] == "j1939-22"
     site = "%s|%s|%s" % ("22" if fd else "21", p["role"], p["mode"])
     data, pgn = obs["data"], obs["pgn"]
@@ -341,6 +347,7 @@ def judge_grants(log, fd, o_node, r_node, sa_o, sa_r, own_max, V, site, counters
 
 
 def judge_flow(p, obs, V, counters):
+    SA_S, SA_P = p.get("sas", [0x30, 0x90])
     fd = p["dll"] == "j1939-22"
     site = "%s|%s|%s" % ("22" if fd else "21", p["role"], p["mode"])
     log = obs["log"]
